@@ -1,0 +1,69 @@
+//go:build verif
+
+// Contracts checked by /verif/govc (comment-only file; see /verif/DESIGN.md, property C35).
+package xgoprojs
+
+//@ spec isFileS(a string) bool := len(extOf(a)) > 1
+//@ spec isLocalS(ns string) bool := len(ns) > 0 && (ns[0] == '/' || ns[0] == '\\' || ns[0] == '.' ||
+//@        (len(ns) >= 2 && ns[1] == ':' && ('A' <= ns[0] && ns[0] <= 'Z' || 'a' <= ns[0] && ns[0] <= 'z')))
+//@ spec consumed(args []string, next []string) int := len(args) - len(next)
+//@ spec isFilesProj(p Proj) bool := istype(p, *FilesProj)
+//@
+//@ func isFile
+//@   pure
+//@   ensures result == isFileS(fname)
+//@
+//@ func isLocal
+//@   pure
+//@   ensures result == isLocalS(ns)
+//@
+//@ func ParseOne
+//@   pure
+//@   ensures [empty] len(args) == 0 ==> err != nil && proj == nil
+//@   ensures [ok] len(args) > 0 ==> err == nil && proj != nil
+//@   ensures [suffix] len(args) > 0 ==> 1 <= consumed(args, next) && consumed(args, next) <= len(args) && next == args[consumed(args, next):]
+//@   ensures [files] len(args) > 0 && isFileS(args[0]) ==> istype(proj, *FilesProj) && proj.(*FilesProj).Files == args[:consumed(args, next)]
+//@   ensures [filesall] len(args) > 0 && isFileS(args[0]) ==> forall k in 0..consumed(args, next) :: isFileS(args[k])
+//@   ensures [maximal] len(args) > 0 && isFileS(args[0]) ==> consumed(args, next) == len(args) || !isFileS(args[consumed(args, next)])
+//@   ensures [single] len(args) > 0 && !isFileS(args[0]) ==> consumed(args, next) == 1
+//@   ensures [dir] len(args) > 0 && !isFileS(args[0]) && isLocalS(args[0]) ==> istype(proj, *DirProj) && proj.(*DirProj).Dir == args[0]
+//@   ensures [pkgpath] len(args) > 0 && !isFileS(args[0]) && !isLocalS(args[0]) ==> istype(proj, *PkgPathProj) && proj.(*PkgPathProj).Path == args[0]
+//@   ensures [fresh] len(args) > 0 ==> fresh(proj)
+//@
+//@ loop ParseOne#1
+//@   invariant 1 <= n && n <= len(args)
+//@   invariant forall k in 0..n :: isFileS(args[k])
+//@   decreases len(args) - n
+//@
+//@ ghost cut array[int]int
+//@
+//@ spec partOK(p Proj, a []string, lo int, hi int) bool :=
+//@        (isFilesProj(p) ==> p.(*FilesProj).Files == a[lo:hi] && (forall i in lo..hi :: isFileS(a[i])) && (hi == len(a) || !isFileS(a[hi]))) &&
+//@        (!isFilesProj(p) ==> hi == lo + 1 && !isFileS(a[lo]) &&
+//@             (isLocalS(a[lo]) ? istype(p, *DirProj) && p.(*DirProj).Dir == a[lo] : istype(p, *PkgPathProj) && p.(*PkgPathProj).Path == a[lo]))
+//@
+//@ func ParseAll
+//@   at entry set cut = store(cut, 0, 0)
+//@   at store projs#2 set cut = store(cut, len(projs), len(old(args)) - len(next))
+//@   ensures [mixed] err != nil ==> (exists i in 0..len(args) :: isFileS(args[i])) && (exists j in 0..len(args) :: !isFileS(args[j]))
+//@   ensures [notmixed] err == nil ==> (forall i in 0..len(args) :: isFileS(args[i])) || (forall j in 0..len(args) :: !isFileS(args[j]))
+//@   ensures [mixederr] err != nil ==> err == ErrMixedFilesProj && projs == nil
+//@   ensures [start] err == nil ==> cut[0] == 0
+//@   ensures [end] err == nil ==> cut[len(projs)] == len(args)
+//@   ensures [mono] err == nil ==> forall k in 0..len(projs) :: 0 <= cut[k] && cut[k] < cut[k+1] && cut[k+1] <= len(args)
+//@   ensures [parts] err == nil ==> forall k in 0..len(projs) :: partOK(projs[k], args, cut[k], cut[k+1])
+//@
+//@ loop ParseAll#1
+//@   invariant [start] cut[0] == 0
+//@   invariant [end] cut[len(projs)] == len(old(args)) - len(args) && len(args) <= len(old(args))
+//@   invariant [rest] args == old(args)[cut[len(projs)]:]
+//@   invariant [mono] forall k in 0..len(projs) :: 0 <= cut[k] && cut[k] < cut[k+1] && cut[k+1] <= len(old(args))
+//@   invariant [parts] forall k in 0..len(projs) :: partOK(projs[k], old(args), cut[k], cut[k+1])
+//@   invariant [hasF] hasFiles ==> exists i in 0..cut[len(projs)] :: isFileS(old(args)[i])
+//@   invariant [noF] !hasFiles ==> forall i in 0..cut[len(projs)] :: !isFileS(old(args)[i])
+//@   invariant [hasN] hasNotFiles ==> exists j in 0..cut[len(projs)] :: !isFileS(old(args)[j])
+//@   invariant [noN] !hasNotFiles ==> forall j in 0..cut[len(projs)] :: isFileS(old(args)[j])
+//@   invariant [errnil] err == nil
+//@   decreases len(args)
+//@
+//@ ginv errMixedNonNil := ErrMixedFilesProj != nil
